@@ -81,6 +81,8 @@ def shape(rng, prev_close, style):
         v = rng.choice([0, 1, 2, 3, 3, 5, 8, 8, 13])
     if dec:
         o, h, l, c = (round(float(x), 2) for x in (o, h, l, c))
+        if rng.random() < 0.3:
+            v = rng.choice([0.5, 1.5, 2.25, 0.25])      # fractional volumes
     return o, h, l, c, v
 
 
